@@ -16,7 +16,11 @@
 //  5. suffix independence,
 //  6. allocation bound (TotalAlloc delta, single-threaded children),
 //  7. encoder result lifetime: results held across later encoder calls stay
-//     intact and independent of each other (alias.go).
+//     intact and independent of each other (alias.go),
+//  8. dirty destination: a decode does not depend on what the destination held
+//     before (dirty.go),
+//  9. concurrent first use of never-seen types is total and equals the
+//     sequential result (fresh.go).
 //
 // Workloads: seeded boundary-biased values per type; mutations of their
 // encodings; exhaustive enumeration of all byte strings of length <= 3 (and
@@ -96,7 +100,7 @@ func main() {
 	if n := r.Get("info_raw_value_prefixed_single_byte_accepted"); n > 0 {
 		r.Note("informational, not a violation: Stream.Raw / rlp.RawValue (also as list elements) took a 0x81-prefixed byte < 0x80 verbatim %d times (e.g. 8105, c28105); raw values are opaque pass-throughs, re-encode identity holds", n)
 	}
-	evals := r.Get("bytes_cases") + r.Get("value_roundtrips") + r.Get("alias_values_held")
+	evals := r.Get("bytes_cases") + r.Get("value_roundtrips") + r.Get("alias_values_held") + r.Get("dirty_destination_checks") + r.Get("fresh_type_goroutines")
 	nontriv := r.Get("exh_nontrivial_pairs") + int64(r.DistinctCount("nontrivial_generated_pairs")) + int64(r.DistinctCount("value"))
 	exh := "all byte strings of length <= 3 against every target type"
 	if r.Thorough() {
@@ -111,6 +115,8 @@ func main() {
 			"one mutation of each of " + strconv.Itoa(len(mutKinds)) + " kinds of the reference encoding of seeded boundary-biased values; " +
 			"structure-aware headers claiming sizes up to 2^64-1 (bare and wrapped in lists), deep nesting, many tiny elements. " +
 			"Encoder lifetime: windows of 2..16 back-to-back encoder calls (EncodeToBytes / EncodeToReader / Encode; header-less values mixed with lists; every 4th window on 2-4 concurrent goroutines) whose results are all held and only compared with the reference bytes, decoded and scribbled over after the window (observed.alias_*). " +
+			"Dirty destination: every valid and mutated encoding is also decoded into a destination of its type that holds an earlier value (and the reverse order, and into an interface{} holder) and compared with the decode into a fresh destination (observed.dirty_destination_*). " +
+			"Concurrent first use: per trial a struct type the process has never seen (reflect.StructOf/SliceOf/ArrayOf/PtrTo, rlp tags, nested; observed.fresh_types_built) is encoded and decoded by 6-16 goroutines released from one barrier and compared with the sequential result (observed.fresh_type_trials). " +
 			"Non-trivial = pairs the decoder accepted (oracles 2,3,5 apply) + pairs it rejected although the string is one canonical item (observed.accepted / observed.rejected_grammatical over all workloads); distinct_nontrivial = observed.exh_nontrivial_pairs (exhaustive pairs are distinct by construction) " +
 			"+ the measured sets nontrivial_generated_pairs (type, string) and value (type, encoding of a round-tripped value).",
 		Assumptions: []string{
@@ -121,7 +127,7 @@ func main() {
 			"rlp.Decode on a reader of unknown length is not fed inputs claiming between 16 MiB and 2^63 bytes (it allocates what is claimed)",
 		},
 		MustObserve: []string{"value_roundtrips", "accepted", "rejected_grammatical", "rejected_ungrammatical", "reencode_checks", "suffix_checks",
-			"split_checks", "count_checks", "stream_walks", "alloc_checks", "reader_checks", "exh_strings", "mutated_strings", "hostile_strings", "alias_windows", "alias_values_held", "alias_readers_held", "alias_windows_concurrent"},
+			"split_checks", "count_checks", "stream_walks", "alloc_checks", "reader_checks", "exh_strings", "mutated_strings", "hostile_strings", "alias_windows", "alias_values_held", "alias_readers_held", "alias_windows_concurrent", "dirty_destination_checks", "dirty_destination_accepted", "fresh_type_trials", "fresh_types_built"},
 	})
 }
 
@@ -139,9 +145,11 @@ const (
 	pmReader
 	pmUntyped
 	pmWindow
+	pmDirty
+	pmFresh
 )
 
-var pmNames = [...]string{"bytes", "value", "alloc", "reader", "untyped", "window"}
+var pmNames = [...]string{"bytes", "value", "alloc", "reader", "untyped", "window", "dirty", "fresh"}
 
 func openProg(path string, create bool) []byte {
 	flags := os.O_RDWR
@@ -504,6 +512,7 @@ func childGen(r *mon.Run, shard int) {
 		origin string
 	}
 	var late []lateCase
+	prev := make([]prevRing, len(targets))
 	item := 0
 	for ti, tg := range targets {
 		for idx := 0; idx < nVal; idx++ {
@@ -528,10 +537,17 @@ func childGen(r *mon.Run, shard int) {
 				enc = checkValue(r, tg, idx)
 				r.Distinct("value", []byte(tg.Name), enc)
 				runBytesAll(r, enc, []*target{tg, iface, raw}, byteOpts{origin: "valid", nJunk: 4})
+				// dirty destination: this encoding into a destination holding an earlier value of the type (and the reverse)
+				if a := prev[ti].pick(idx); a != nil {
+					checkDirty(r, tg, a, enc, "valid")
+					checkDirty(r, tg, enc, a, "valid")
+					checkDirty(r, iface, a, enc, "valid")
+				}
 				if idx < 1 && ti%14 == 0 {
 					r.Sample(Case{Mode: "value", Type: tg.Name, Index: idx, Input: enc})
 				}
 			}
+			prev[ti].add(enc)
 			if idx < nMut {
 				rng := r.Rand("mutate", tg.Name, idx)
 				for _, mk := range mutKinds {
@@ -552,6 +568,7 @@ func childGen(r *mon.Run, shard int) {
 					if !iface.skip {
 						checkAlloc(r, iface, b, origin)
 					}
+					checkDirty(r, tg, prev[ti].pick(idx+1), b, origin)
 				}
 			}
 			if skipping {
@@ -624,6 +641,8 @@ func childGen(r *mon.Run, shard int) {
 		checkWindow(r, i)
 		unitDone(r)
 	}
+	// concurrent first use of never-seen types (fresh.go)
+	freshPhase(r, shard, r.Pick(960, 30000))
 	// fixed hostile shapes: deep nesting and many tiny elements (allocation amplification)
 	if shard == 0 {
 		depths := []int{10, 100, 1000}
@@ -693,6 +712,12 @@ func runCase(r *mon.Run, c Case) {
 		checkAlloc(r, tg, c.Input, c.Origin)
 	case "window":
 		checkWindow(r, c.Index)
+	case "fresh":
+		old := runtime.GOMAXPROCS(8)
+		checkFresh(r, c.Index)
+		runtime.GOMAXPROCS(old)
+	case "dirty":
+		checkDirty(r, targetByName(c.Type), c.Prev, c.Input, c.Origin)
 	case "reader":
 		tg := targetByName(c.Type)
 		warmup(tg)
@@ -740,6 +765,6 @@ func replay(r *mon.Run, path string) {
 		r.Absorb(res, "C08:replay")
 	}
 	mon.CleanWork()
-	n := r.Get("bytes_cases") + r.Get("value_roundtrips") + r.Get("alloc_checks") + r.Get("reader_checks") + r.Get("split_checks") + r.Get("alias_values_held")
+	n := r.Get("bytes_cases") + r.Get("value_roundtrips") + r.Get("alloc_checks") + r.Get("reader_checks") + r.Get("split_checks") + r.Get("alias_values_held") + r.Get("dirty_destination_checks") + r.Get("fresh_type_goroutines")
 	r.Finish(mon.Coverage{Evaluations: n + 1, DistinctNontrivial: 2, Rule: "replay of one recorded case"})
 }
